@@ -40,6 +40,7 @@ SessionObject::SessionObject(SessionObjectStore* inParent, CK_SLOT_ID inSlotID, 
 	hSession = inHSession;
 	slotID = inSlotID;
 	isPrivate = inIsPrivate;
+	inTransaction = false;
 	objectMutex = MutexFactory::i()->getMutex();
 	valid = (objectMutex != NULL);
 	parent = inParent;
@@ -277,6 +278,17 @@ bool SessionObject::removeOnTokenLogout(CK_SLOT_ID inSlotID)
     return false;
 }
 
+// Free a set of attributes
+static void freeAttributes(std::map<CK_ATTRIBUTE_TYPE, OSAttribute*>& attrs)
+{
+	for (std::map<CK_ATTRIBUTE_TYPE, OSAttribute*>::iterator i = attrs.begin(); i != attrs.end(); i++)
+	{
+		delete i->second;
+	}
+
+	attrs.clear();
+}
+
 // Discard the object's attributes
 void SessionObject::discardAttributes()
 {
@@ -295,21 +307,56 @@ void SessionObject::discardAttributes()
 		delete i->second;
 		i->second = NULL;
 	}
+
+	// Also drop the attributes saved by a pending transaction
+	freeAttributes(savedAttributes);
+	inTransaction = false;
 }
 
-// These functions are just stubs for session objects
+// Transactions: the attributes are restored when a transaction is aborted
 bool SessionObject::startTransaction(Access)
 {
+	MutexLocker lock(objectMutex);
+
+	if (inTransaction) return false;
+
+	// Remember the current attributes so that the transaction can be aborted
+	for (std::map<CK_ATTRIBUTE_TYPE, OSAttribute*>::iterator i = attributes.begin(); i != attributes.end(); i++)
+	{
+		if (i->second != NULL)
+		{
+			savedAttributes[i->first] = new OSAttribute(*i->second);
+		}
+	}
+
+	inTransaction = true;
+
 	return true;
 }
 
 bool SessionObject::commitTransaction()
 {
+	MutexLocker lock(objectMutex);
+
+	if (!inTransaction) return false;
+
+	freeAttributes(savedAttributes);
+	inTransaction = false;
+
 	return true;
 }
 
 bool SessionObject::abortTransaction()
 {
+	MutexLocker lock(objectMutex);
+
+	if (!inTransaction) return false;
+
+	// Restore the attributes as they were when the transaction was started
+	freeAttributes(attributes);
+	attributes.swap(savedAttributes);
+	inTransaction = false;
+
 	return true;
 }
 
